@@ -1,10 +1,11 @@
-\* exhaustive: every MaxLayers-entry manifest (all canonical digest patterns incl. repeats, any isLayer)
-\* x whole-manifest URL patterns (own / none / alternating / oversize list on one layer)
+\* edge family: (1) URL lists whose label would be MaxSize-2 .. MaxSize+1 bytes under the urls / urls.<i> keys
+\* (one, two, three URLs); (2) layer descriptors that already carry one or two containerd.io/snapshot/remote/*
+\* annotations with a foreign value
 CONSTANTS
     MaxSize = 4096
-    Family = "pattern"
-    MaxLayers = 4
-    MaxD = 4
+    Family = "edge"
+    MaxLayers = 0
+    MaxD = 0
     LongNs = {}
     RefPfs = {12}
     Flavours = {"default", "extra"}
